@@ -179,6 +179,29 @@ Overwrite(e, pos, n) ==
     /\ dirchg' = IF Resolve(elems[e].name, elems[e].form) # "none" THEN FALSE ELSE dirchg
     /\ UNCHANGED <<st, createdir, search, present, elems, tainted, hnd>>
 
+\* the same through a SECOND access handle while a first one, opened for reading and read to the end, is still attached
+\* (Hstartread; Hread; Hstartwrite; Hseek; Hwrite; Hendaccess; Hendaccess): the external file has been opened read-only by
+\* the first handle when the write arrives.  One step of the model: nothing of the environment changes in between, so
+\* both handles use the file the rules name now; rd = what the first handle read.
+RWOverwrite(e, pos, n) ==
+    /\ st = "open" /\ hnd = <<>> /\ elems[e].kind = "ext" /\ pos + n <= elems[e].len
+    \* (the library re-opens a stream that was opened read-only by the STORED name, without the search list: where that
+    \*  is another place than the rules name, the write is refused -- visibly; generated only where both agree)
+    /\ LET dr == Resolve(elems[e].name, elems[e].form) IN dr \in {"none", "c"} \/ elems[e].form = "abs"
+    /\ LET el == elems[e]  d == Payload(wc + 1, n)  dir == Resolve(el.name, el.form) IN
+       IF dir = "none"
+       THEN /\ Log("RWOverwrite", [e |-> e, pos |-> pos, data |-> d], [ret |-> FAIL, rd |-> ReadOut(ReadVal(e))])
+            /\ UNCHANGED <<fs, truth, home, whole>>
+       ELSE LET f == <<dir, el.name>> IN
+            /\ fs' = [fs EXCEPT ![f] = WriteAt(fs[f], el.off + pos, d)]
+            /\ home' = [home EXCEPT ![e] = f]
+            /\ whole' = [whole EXCEPT ![e] = IF f = home[e] THEN whole[e] ELSE (pos = 0 /\ n = el.len)]
+            /\ truth' = Retruth(elems, home', fs', f, truth)
+            /\ Log("RWOverwrite", [e |-> e, pos |-> pos, data |-> d], [ret |-> n, rd |-> ReadOut(ReadVal(e))])
+    /\ wc' = wc + 1
+    /\ dirchg' = IF Resolve(elems[e].name, elems[e].form) # "none" THEN FALSE ELSE dirchg
+    /\ UNCHANGED <<st, createdir, search, present, elems, tainted, hnd>>
+
 \* ---- one long-lived access handle (Hstartaccess .. Hendaccess spanning several calls) ----
 \* The external file is opened at the first transfer and kept open; a transfer re-locates it only if the search list
 \* was changed (HXsetdir) since a file was last located by ANY element (the flag is the process's, not the handle's).
@@ -274,6 +297,7 @@ Next ==
     \/ \E e \in Elems, nm \in Names, fm \in Forms, off \in Offs : Promote(e, nm, fm, off)
     \/ \E e \in Elems : Read(e)
     \/ \E e \in Elems, pos \in 0..2, n \in 1..2 : Overwrite(e, pos, n)
+    \/ \E e \in Elems, pos \in 0..2, n \in 1..2 : RWOverwrite(e, pos, n)
     \/ \E nm \in Names, d1 \in Dirs, d2 \in Dirs : Move(nm, d1, d2)
     \/ \E nm \in Names, d \in Dirs, n \in {2, 9} : Plant(nm, d, n)
     \/ \E nm \in Names, d \in Dirs : Remove(nm, d)
